@@ -597,12 +597,17 @@ func (o *operation) handle() {
 	defer rw.close()
 	o.writer = rw
 
+	// A server protocol without envelopes has no per-message compressed flag: when
+	// the request declares a compression, every message must reach the server
+	// compressed, so messages are handled one by one instead of passed through.
+	flagLost := o.clientEnveloper != nil && o.serverEnveloper == nil && o.server.reqCompression != nil
+
 	// And finally we can define the transformed request bodies.
 	switch {
 	case skipBody:
 		// drain any contents of body so downstream handler sees empty
 		o.drainBody(o.request.Body)
-	case sameRequestCompression && sameRequestCodec && !mustDecodeRequest:
+	case sameRequestCompression && sameRequestCodec && !mustDecodeRequest && !flagLost:
 		// we do not need to decompress or decode; just transforming envelopes
 		o.request.Body = &envelopingReader{rw: rw, r: o.request.Body}
 	default:
@@ -1060,6 +1065,13 @@ func (r *transformingReader) prepareMessage() error {
 	if err := r.msg.advanceToStage(r.rw.op, stageSend); err != nil {
 		return err
 	}
+	if r.rw.op.serverEnveloper == nil && !r.msg.wasCompressed && r.rw.op.server.reqCompression != nil {
+		// The client sent this message uncompressed, but the server has been
+		// told (it has no per-message flag) that the body is compressed.
+		if err := r.msg.compress(r.rw.op); err != nil {
+			return err
+		}
+	}
 	r.buffer = r.msg.sendBuffer()
 	// The limit applies to the re-encoded message whether or not the server
 	// protocol uses envelopes.
@@ -1239,8 +1251,13 @@ func (w *responseWriter) WriteHeader(statusCode int) {
 		delegate = w.delegate
 	}
 
+	// A client protocol without envelopes has no per-message compressed flag: when
+	// the response declares a compression, every message must reach the client
+	// compressed, so messages are handled one by one instead of passed through.
+	flagLost := w.op.clientEnveloper == nil && w.op.serverEnveloper != nil && respMeta.compression != ""
+
 	// Now we can define the transformed response body.
-	if sameResponseCodec && !mustDecodeResponse {
+	if sameResponseCodec && !mustDecodeResponse && !flagLost {
 		// we do not need to decompress or decode
 		w.w = &envelopingWriter{rw: w, w: delegate}
 	} else {
@@ -1806,6 +1823,13 @@ func (w *transformingWriter) flushMessage() error {
 	w.msg.markReady()
 	if err := w.msg.advanceToStage(w.rw.op, stageSend); err != nil {
 		return err
+	}
+	if w.rw.op.clientEnveloper == nil && !w.msg.wasCompressed && w.rw.op.client.respCompression != nil {
+		// The backend sent this message uncompressed, but the client has been
+		// told (it has no per-message flag) that the body is compressed.
+		if err := w.msg.compress(w.rw.op); err != nil {
+			return err
+		}
 	}
 	buffer := w.msg.sendBuffer()
 	if enveloper := w.rw.op.clientEnveloper; enveloper != nil {
